@@ -91,6 +91,9 @@ def oracle(c, case, r):
     e = r["export"]
     desc = case["desc"]
     own = ":task-marks-own-parameter" if marks_own_parameter(e) else ""
+    acts = desc.get("actions", [])
+    failed_submit = any(ai < len(acts) and (acts[ai]["a"] == "submit" or (acts[ai]["a"] == "set" and acts[ai]["v"].get("t") == "out"))
+                        for ai, _ in (r.get("build_errors") or []))
     for d in r["defs"]:
         i = d["id"]
         orig = e["nodes"][i]
@@ -119,7 +122,12 @@ def oracle(c, case, r):
             key = "C12:init-tasks-lost" if rel["init"] == [] else "C12:init-tasks-changed"
             c.violation(key, "init tasks differ after reload", dict(ctx, before=orig["init"], after=rel["init"]))
         b, a = r["ids_before"].get(str(i)), r["ids_after"].get(str(i))
-        if b != a:
+        if b != a and failed_submit:
+            # a submit() of the build raised half-way (e.g. RecursionError on init tasks referring to each other): the
+            # ORIGINAL graph then holds identifiers cached before the aborted submit changed it (that is C14/C15's
+            # subject: a rejected submit must change nothing); what a reload recomputes cannot be compared with them
+            c.count("identifier-comparison-skipped:failed-submit-in-build")
+        elif b != a:
             cause = ("task-marks-own-parameter" if own else
                      "meta-false" if any(e["nodes"][j["id"]]["meta"] is False for j in r["defs"]) else
                      "init-tasks" if any(e["nodes"][j["id"]]["init"] for j in r["defs"]) else "other")
